@@ -10,6 +10,7 @@ import (
 	"os"
 	"path"
 	"strings"
+	"syscall"
 
 	"git.defalsify.org/vise.git/db"
 )
@@ -113,6 +114,11 @@ func (fdb *fsDb) Get(ctx context.Context, key []byte) ([]byte, error) {
 		f, err = os.Open(fp)
 		if err == nil {
 			break
+		}
+		if errors.Is(err, syscall.ENAMETOOLONG) {
+			// a name the file system cannot hold (the key plus a language or legacy suffix) is
+			// a file that does not exist
+			continue
 		}
 		if !errors.Is(err, fs.ErrNotExist) {
 			return nil, err
